@@ -1141,3 +1141,20 @@ func closureParamBinding(par *ssa.Parameter) ssa.Value {
 	}
 	return res
 }
+
+// ScopeFns: root and its extracted helpers (the functions a rule running
+// InScope(root) treats as one body), root first, helpers in a stable order.
+func (p *Prog) ScopeFns(root *ssa.Function) []*ssa.Function {
+	res := []*ssa.Function{root}
+	var hs []*ssa.Function
+	for h := range p.scopeOf(root).site {
+		hs = append(hs, h)
+	}
+	sort.Slice(hs, func(i, j int) bool {
+		if hs[i].Pos() != hs[j].Pos() {
+			return hs[i].Pos() < hs[j].Pos()
+		}
+		return hs[i].String() < hs[j].String()
+	})
+	return append(res, hs...)
+}
